@@ -89,9 +89,9 @@ func tuples(L, n int, f func(v []int)) {
 }
 
 // orderings calls f with the insertion orders used for a multiset when not
-// every tuple is enumerated: ascending, descending and (if different)
-// an inside-out interleaving.
-func orderings(ms []int, f func(v []int)) {
+// every tuple is enumerated: ascending, descending and (if requested and
+// different) an inside-out interleaving.
+func orderings(ms []int, insideOut bool, f func(v []int)) {
 	n := len(ms)
 	asc := append([]int(nil), ms...)
 	f(asc)
@@ -102,7 +102,7 @@ func orderings(ms []int, f func(v []int)) {
 	if !sameInts(asc, desc) {
 		f(desc)
 	}
-	if n >= 3 {
+	if n >= 3 && insideOut {
 		mid := make([]int, 0, n)
 		lo, hi := (n-1)/2, (n-1)/2+1
 		for lo >= 0 || hi < n {
